@@ -52,7 +52,7 @@ static runtime_state_t g_entry_state;
 #define STEP_HOOK(o, n) do { \
     VX_ASSERT(g_cleanup_calls >= 1 && g_cleaned, "the worker leaves the loop only after a complete clean-up of terminated threads (fresh: after its last sleep)"); \
     VX_ASSERT(g_cnt_calls >= 1 && g_susp_seen == 0, "shutdown path: the worker leaves the loop only when no suspended (blocked) thread is left on it (terminate only when nothing is left)"); \
-    VX_ASSERT(g_qlen_calls >= 1 && g_qlen_seen == 0, "the worker leaves the loop only when its queues were seen empty"); \
+    VX_ASSERT(g_qlen_calls >= 1 && g_qlen_seen == 0, "the worker leaves the loop only when its queues were seen empty AFTER the last callback / polling call of this iteration (fresh evidence: work may have been queued meanwhile)"); \
     VX_ASSERT(!g_found, "no final step in an iteration that found a thread to run"); \
   } while (0)
 #define READ_HOOK() do { if (lin_count >= 1) g_after_step = true; if (g_suspend_calls == 0 && g_interfered) g_intf_pre = true; } while (0)
@@ -76,11 +76,14 @@ enum { thread_schedule_state_suspended = 3, thread_priority_default = 0 };
 
 /* ---- environment: callbacks and SchedulingPolicy callees (T stubs: arbitrary answers, ghost records) ---- */
 static bool inner_empty(void) { return nondet_bool(); }
-static void inner_call(void) { if (g_inner_calls < 2) g_inner_calls++; }
+/* the callbacks into the invoking context (scheduler_base::idle_callback backs off for milliseconds) and the custom polling
+ * function (MPI / CUDA polling completes requests and SCHEDULES their continuations) let arbitrary time pass and may put work on this
+ * worker's queue: what the worker knew about its queues before them is stale (added after seeded change C05-7 was missed) */
+static void inner_call(void) { if (g_inner_calls < 2) g_inner_calls++; g_qlen_seen = -1; }
 static bool outer_empty(void) { return nondet_bool(); }
-static void outer_call(void) { if (g_outer_calls < 2) g_outer_calls++; }
+static void outer_call(void) { if (g_outer_calls < 2) g_outer_calls++; g_qlen_seen = -1; }
 static int get_agent_storage(void) { return nondet_int(); }
-static bool custom_polling_busy(void) { return nondet_bool(); }
+static bool custom_polling_busy(void) { g_qlen_seen = -1; return nondet_bool(); }
 static bool sp_has_scheduler_mode(scheduler_mode_t mode) { return nondet_bool(); }
 /* the block that executes the thread that was found: outside this unit (CutThen) */
 static void vx_found_thread(void) { g_found = true; }
